@@ -726,7 +726,7 @@ struct Hist {
         switch (cls) {
         case Cls::CONSISTENCY: w = {50, 10, 5, 4, 2, 3, 4, 5, 4, 2, 1}; break;
         case Cls::TEMPLATE: w = {50, 6, 5, 2, 24, 5, 2, 2, 1, 1, 1}; break;
-        case Cls::LIMITS: w = {64, 14, 4, 3, 1, 2, 2, 2, 1, 1, 1}; break;
+        case Cls::LIMITS: w = {66, 14, 4, 3, 1, 1, 1, 2, 1, 1, 1}; break;
         case Cls::TESTACCEPT: w = {74, 4, 4, 3, 1, 3, 2, 3, 2, 1, 1}; break;
         case Cls::PACKAGE: w = {24, 54, 4, 2, 1, 3, 2, 3, 2, 1, 1}; break;
         case Cls::MIXED: w = {42, 18, 5, 4, 6, 4, 4, 5, 3, 2, 1}; break;
@@ -760,11 +760,13 @@ MpOpts RandomMpOpts(vh::Rng& rng, Cls cls)
     if (small) {
         static const unsigned cc[] = {3, 4, 5, 8, 12, 25, 64};
         o.cluster_count = cc[rng.below(7)];
-        static const int64_t cs[] = {2000, 2000, 4000, 4000, 10000, 25000, 101000};
+        static const int64_t cs[] = {1000, 2000, 2000, 4000, 4000, 10000, 101000};
         o.cluster_size_vbytes = cs[rng.below(7)];
+        // the node refuses -maxmempool below 40 x cluster size; most histories sit right at that floor so that trimming happens
         const int64_t floor_bytes = o.cluster_size_vbytes * 40;
-        o.max_size_bytes = std::max<int64_t>(floor_bytes, 60000 + (int64_t)rng.below(300000));
-        if (rng.chance(1, 5)) o.max_size_bytes = std::max<int64_t>(floor_bytes, 5000000);
+        o.max_size_bytes = std::max<int64_t>(floor_bytes, 40000) + (int64_t)rng.below(40000);
+        if (o.max_size_bytes > 500000) o.max_size_bytes = std::max<int64_t>(floor_bytes, 60000 + (int64_t)rng.below(200000));
+        if (rng.chance(1, 6)) o.max_size_bytes = std::max<int64_t>(floor_bytes, 5000000);
     }
     static const int64_t ex[] = {2 * 3600, 6 * 3600, 24 * 3600, 72 * 3600, 336 * 3600};
     o.expiry_s = ex[rng.below(5)];
